@@ -11,6 +11,7 @@ import sys
 import os
 sys.path.insert(0, os.path.dirname(os.path.abspath(__file__)))
 import c18  # noqa: E402  (shared ordering / pagination clauses)
+import c09  # noqa: E402  (shared: group snapshot filters select by the group id alone)
 
 TABLE_CACHES = {
     "groups": {"groups_cache", "groups_by_nostr_id_cache"}, "group_relays": {"group_relays_cache"},
@@ -260,6 +261,7 @@ def run(ctx, rep):
     rep.clause("C10.4 upserts assign every non-key column on a key conflict; row mappers read every inserted column; per trait method the SQLite tables correspond to the memory caches touched")
     rep.clause("C10.6 memory backend: a method that refuses does so before it changes the storage's maps (the SQLite sibling's failed statement changes nothing)")
     rep.clause("C10.5 ORDER BY lists = comparator chains = memory sort closures; limit validation and pagination arithmetic agree (shared with C18)")
+    rep.clause("C10.7 group snapshot / rollback: the memory backend selects the entries it captures / clears by the group id alone, as every SQLite snapshot statement does (WHERE group_id = ?); shared with C09")
     rep.not_decided = "observable equality on arbitrary operation sequences, LRU capacity effects (memory eviction), error wording"
     for s in sites:
         if s.stmt.kind in ("SELECT", "INSERT", "UPDATE", "DELETE"):
@@ -277,4 +279,5 @@ def run(ctx, rep):
     c18.clause_pagination(prog, rep)
     clause_filter_before_page(prog, rep)
     clause_refusal_leaves_state(prog, rep)
+    c09.clause_filter_group_only(prog, rep, "snapshot-filter-agreement")
     sqlrules.clause_stored_verbatim(prog, rep, sites, "upsert-complete", {"messages", "processed_messages", "groups", "welcomes", "processed_welcomes", "group_relays", "group_exporter_secrets"}, floor=5)
